@@ -5,6 +5,7 @@ slices and a small amount of boolean-region evaluation over MIR.  No code of the
 analysed crate is executed.
 """
 import json
+import os
 import re
 from collections import defaultdict, deque
 
@@ -636,14 +637,26 @@ class Body:
         kind: 'assign' (stmt), 'call' (call destination), 'part' (projection store)."""
         if self._defs is None:
             d = defaultdict(list)
+            # a body whose paths were split on the variant of an inlined return value (core/inline.py) holds
+            # copies of one original block: a definition is counted once
+            seen_orig = set()
             for b, blk in enumerate(self.blocks):
+                ob = blk.get("orig_bb")
                 for i, st in enumerate(blk["stmts"]):
                     if st["k"] == "assign":
+                        if ob is not None:
+                            if (ob, i) in seen_orig:
+                                continue
+                            seen_orig.add((ob, i))
                         p = st["place"]
                         kind = "assign" if not p["p"] else "part"
                         d[p["l"]].append((Site(self, b, i), kind, st))
                 t = blk["term"]
                 if t and t["k"] == "call":
+                    if ob is not None:
+                        if (ob, "term") in seen_orig:
+                            continue
+                        seen_orig.add((ob, "term"))
                     p = t["dest"]
                     kind = "call" if not p["p"] else "part"
                     d[p["l"]].append((Site(self, b, "term"), kind, t))
@@ -752,6 +765,13 @@ class Facts:
             self.j = json.load(f)
         self.crate = self.j["crate"]
         self.nonce = self.j.get("nonce")
+        # functions unknown to the reviewed tree (extracted helpers) are judged through their callers
+        self.inlined = {}
+        if os.environ.get("VERIF_NO_INLINE") != "1":
+            from . import inline
+            known = inline.known_functions(self.crate)
+            if known is not None:
+                self.inlined = inline.inline_unknown(self.j["bodies"], known)
         self.bodies = {k: Body(k, v, self) for k, v in self.j["bodies"].items()}
         self.statics = self.j["statics"]
         self.consts = {c["name"]: c for c in self.j["consts"]}
@@ -777,7 +797,7 @@ class Facts:
     def closures_of(self, body, recursive=True):
         out = []
         for k, b in self.bodies.items():
-            if b.kind == "Closure" and b.parent == body.name:
+            if b.kind == "Closure" and (b.parent == body.name or b.parent in (body.j.get("absorbed_parents") or ())):
                 out.append(b)
                 if recursive:
                     out.extend(self.closures_of(b, True))
